@@ -69,6 +69,8 @@ pub struct AstLowering {
     pub(super) struct_names: HashMap<String, IrType>,
     /// Track declared enums for type resolution
     pub(super) enum_names: HashMap<String, IrType>,
+    /// Functions declared in this module: a call to one of them is never a constructor call, whatever its spelling
+    pub(super) function_names: std::collections::HashSet<String>,
     /// Track mutable variables for auto-borrow at call sites
     pub(super) mutable_vars: HashMap<String, bool>,
     /// Track class declarations for inheritance resolution
@@ -167,6 +169,7 @@ impl AstLowering {
             scopes: vec![HashMap::new()],
             struct_names: HashMap::new(),
             enum_names: HashMap::new(),
+            function_names: std::collections::HashSet::new(),
             mutable_vars: HashMap::new(),
             class_decls: HashMap::new(),
             trait_methods: HashMap::new(),
@@ -263,6 +266,7 @@ impl AstLowering {
                     })
                     .collect();
                 let return_type = self.lower_type(&f.return_type.node);
+                self.function_names.insert(f.name.clone());
                 ir_program
                     .function_registry
                     .register(f.name.clone(), params, return_type);
